@@ -97,6 +97,22 @@ def scan_sources(repo):
                 ctor = fm.group(1) in ("ThreadData", "SyncLogForwarder", "Executor", "ThreadExecutor", "TimerResults", "SuppressionList", "check")
                 if uses and not logged and not ctor:
                     bad.append("%s: %s() touches %s without logging it" % (rel, fm.group(1), member))
+    # element-level logging: the flags of a list entry are tracked fields owned by the list they are inserted into
+    sh = open(os.path.join(repo, "lib", "suppressions.h"), encoding="utf-8", errors="replace").read()
+    for fld in ("matched", "checked"):
+        if not re.search(r"#ifdef DANMAR_CPPCHECK_VERIF[^#]*VERIF_TRACKED\(bool\)\s+%s\b" % fld, sh):
+            bad.append("lib/suppressions.h: Suppression::%s is not a tracked field under the hook guard" % fld)
+    sc = strip_comments(open(os.path.join(repo, "lib", "suppressions.cpp"), encoding="utf-8", errors="replace").read())
+    inserts = re.findall(r"\bmSuppressions\s*\.\s*(?:push_back|emplace_back|push_front|emplace_front|insert|emplace|splice|assign|merge)\s*\(", sc) + \
+        re.findall(r"\bmSuppressions\s*=[^=]", sc)
+    owns = re.findall(r"VERIF_EV_OWN\(mSuppressions\.back\(\)\.(\w+)", sc)
+    if len(inserts) != 1 or sorted(owns) != ["checked", "matched"]:
+        bad.append("lib/suppressions.cpp: %d statements put entries into mSuppressions, ownership of the tracked flags is set for %s" % (len(inserts), owns))
+    vh = open(os.path.join(repo, "lib", "verifev.h"), encoding="utf-8", errors="replace").read()
+    if not re.search(r"#define VERIF_EV\(kind, name\) verifev::acc\(", vh) or not re.search(r"inline void acc\([^)]*\)\s*\{\s*for \(ScopeBase\* s : activeScopes\(\)\)\s*s->revalidate\(\);", vh):
+        bad.append("lib/verifev.h: an access no longer revalidates the lock scopes against the real guards")
+    if "return g.owns_lock();" not in vh:
+        bad.append("lib/verifev.h: a unique_lock's scope no longer asks the guard whether it owns the mutex")
     hdr = strip_comments(open(os.path.join(repo, "lib", "settings.h"), encoding="utf-8", errors="replace").read())
     if not re.search(r"static\s+std::atomic<bool>\s+mTerminated", hdr):
         bad.append("lib/settings.h: Settings::mTerminated is no longer std::atomic<bool>")
@@ -154,12 +170,61 @@ def trace_case(trace):
     return ["check", str(len(table) // 2)] + table + fields_ev
 
 
+def tsan_search(run, rng, n_runs=40):
+    """search aid only (not part of the claim): the same kind of runs under a -fsanitize=thread build;
+    reports are listed in the evidence, a report that names one of the modelled members becomes a violation"""
+    bd = os.path.join(vlib.BUILD, "repo_tsan")
+    with vlib.Lock("repo_tsan"):
+        if not os.path.exists(os.path.join(bd, "build.ninja")):
+            rc, out, _ = vlib.sh(["cmake", "-G", "Ninja", "-S", vlib.REPO, "-B", bd, "-DCMAKE_BUILD_TYPE=RelWithDebInfo", "-DBUILD_TESTS=OFF",
+                                  "-DCMAKE_CXX_FLAGS=-D%s -Wno-error -fsanitize=thread -O1 -g" % vlib.GUARD,
+                                  "-DCMAKE_EXE_LINKER_FLAGS=-fsanitize=thread", "-DCMAKE_DISABLE_PRECOMPILE_HEADERS=ON"])
+            if rc != 0:
+                run.notes.append("tsan build could not be configured")
+                run.extra["tsan"] = "configure failed"
+                return
+        rc, out, dt = vlib.sh(["ninja", "-C", bd, "cppcheck"], timeout=3000)
+        if rc != 0:
+            run.extra["tsan"] = "build failed: " + out[-300:]
+            return
+    exe = os.path.join(bd, "bin", "cppcheck")
+    reports = {}
+    for ri in range(n_runs):
+        d = tempfile.mkdtemp(prefix="c16t_")
+        try:
+            names = []
+            while len(names) < rng.randint(3, 8):
+                case = G.gen_case(rng, trigger_macro=True, with_header=False)
+                for n in case["names"]:
+                    nn = "r%d_%s" % (len(names), n)
+                    open(os.path.join(d, nn), "w").write(case["files"][n])
+                    names.append(nn)
+            args = ["-q", "-j%d" % rng.choice([2, 3, 4, 8]), "--executor=thread", "--inline-suppr", "--showtime=summary", "--enable=warning,style"]
+            e = dict(os.environ)
+            e["TSAN_OPTIONS"] = "halt_on_error=0 report_signal_unsafe=0 exitcode=0"
+            p = subprocess.run([exe] + args + names, cwd=d, env=e, stdout=subprocess.PIPE, stderr=subprocess.PIPE, timeout=600)
+            err = p.stderr.decode("utf-8", "replace")
+            for blk in err.split("WARNING: ThreadSanitizer:")[1:]:
+                frames = re.findall(r"#\d+ (\S+) [^\n]*?([\w./]+\.(?:cpp|h):\d+)", blk)
+                top = next((f for f in frames if "/lib/" in f[1] or "/cli/" in f[1] or f[1].startswith(("lib/", "cli/"))), frames[0] if frames else ("?", "?"))
+                key = "%s %s @ %s" % (blk.split("\n", 1)[0].strip()[:40], top[0][:60], top[1])
+                reports[key] = reports.get(key, 0) + 1
+            run.count("TSan search (aid, not claimed)", None, nontrivial=ri, bucket="reports" if "WARNING: ThreadSanitizer:" in err else "clean")
+        finally:
+            shutil.rmtree(d, ignore_errors=True)
+    run.extra["tsan_reports"] = reports
+    for key in reports:
+        if any(re.search(r"suppressions\.cpp|threadexecutor\.cpp|executor\.cpp|timer\.cpp", key) for _ in [0]):
+            run.violation("tsan:" + vlib.hashlib.sha1(key.encode()).hexdigest()[:10], "ThreadSanitizer report in an instrumented file: " + key,
+                          {"report": key, "count": reports[key], "how": "build/repo_tsan/bin/cppcheck -q -jN --executor=thread --inline-suppr --showtime=summary <generated files>"})
+
+
 def check(run, replay):
     quick = run.tier == "quick"
     rng = run.rng
     run.trusted_base += [
         "Coq 8.16.1 kernel (coqc); extraction: Require Extraction + ExtrOcamlBasic only; ocaml/driver.ml",
-        "hook 365f587 (lib/verifev.h + VERIF_EV lines): a `lock` line is written after the std::lock_guard is constructed and the `unlock` line before it is destroyed (RAII object declared right after the guard, referring to it); accesses are logged inside the critical section that contains the real access (source scan on every run, manual review of the 16 sites)",
+        "hooks 365f587 + 66319a6 (lib/verifev.h + VERIF_EV lines): a `lock` line is written after the guard is constructed and the `unlock` line before it is destroyed (RAII object declared right after the guard, referring to it); before every logged access the scopes of the thread are revalidated against the real guards (unique_lock::owns_lock), so an early unlock()/re-lock() shows as an event; Suppression::matched/checked of list entries are tracked fields: every read/write of them, wherever it is written in the source, is logged as an access to the owning list (source scan on every run)",
         "tools/props/c16.py: guard table (member -> mutex of the same object), restriction of the main thread's trace to the fork..join phase (before/after, thread creation and join order the accesses)",
         "the calculus: std::mutex = non-recursive exclusive lock; sequentially consistent interleavings (data-race freedom of the observed traces under SC implies SC behaviour by the C++ memory model's DRF guarantee - not formalised)",
         "LIMIT: shared state that is not instrumented is invisible: Library and Settings objects (read-only by design during analysis), static data in lib/ (caches, static locals), Settings::mTerminated (std::atomic<bool>, checked syntactically), TimerResults::getResults, std::cout/std::cerr, the AnalyzerInformation files of --cppcheck-build-dir",
@@ -263,6 +328,8 @@ def check(run, replay):
                                       {"broken": "comparator", "removed_index": i, "events_around": tr[max(0, i - 3):i + 4]}, found_input=False)
         finally:
             shutil.rmtree(d, ignore_errors=True)
+    if not quick:
+        tsan_search(run, rng)
     run.extra["event_kinds_seen"] = {"%s %s" % k: v for k, v in sorted(kinds_seen.items())}
     missing = [m for m in GUARD if ("wr", m) not in kinds_seen and ("rd", m) not in kinds_seen]
     if missing:
